@@ -91,7 +91,7 @@ class Table(Suite):
 
 
 if __name__ == "__main__":
-    main("C02", [Table()],
+    main("C02", [Table()], gen_targets=['step6'],
          level_note="theorems for all schemes (T0=T1, T3=T4 where needed), all datasets, all pairs of ids, all duplicate-free candidates "
                     "over the universe; the numba kernel is tied to the model by comparing whole n x n x 3 tables; unit weights only "
                     "(the library never passes other weights)",
